@@ -69,16 +69,20 @@ type Cluster struct {
 
 // Instance is one participant.
 type Instance struct {
-	ID    uint64
-	Name  string
-	Stack *Stack
-	Store e2wtypes.Store
-	c     *Cluster
+	ID      uint64
+	Name    string
+	Stack   *Stack
+	Store   e2wtypes.Store
+	GenPass string // the instance's configured generation passphrase
+	c       *Cluster
 }
 
 // ClusterOpts configures a cluster.
 type ClusterOpts struct {
-	Dir         string
+	// DistinctGenPass gives every instance its own generation passphrase, known only to its own unlocker (besides
+	// the common client passphrase "pass").
+	DistinctGenPass bool
+	Dir             string
 	IDs         []uint64
 	Permissions map[string][]*checker.Permissions
 	ProcessOp   []standardprocess.Parameter
@@ -143,9 +147,15 @@ func NewCluster(o ClusterOpts) (*Cluster, error) {
 		if err != nil {
 			return nil, err
 		}
+		inst.GenPass = "pass"
+		var passes []string
+		if o.DistinctGenPass {
+			inst.GenPass = fmt.Sprintf("generation-passphrase-of-%d", id)
+			passes = []string{"pass", inst.GenPass}
+		}
 		st, err := NewStack(StackOpts{
-			StorageDir: filepath.Join(o.Dir, fmt.Sprintf("inst%d", id)), Fetcher: f, Permissions: o.Permissions,
-			ID: id, Peers: peers, Sender: &RouteSender{c: c, from: inst}, Stores: []e2wtypes.Store{store}, GenPass: "pass", ProcessOp: o.ProcessOp,
+			StorageDir: filepath.Join(o.Dir, fmt.Sprintf("inst%d", id)), Fetcher: f, Permissions: o.Permissions, Passphrases: passes,
+			ID: id, Peers: peers, Sender: &RouteSender{c: c, from: inst}, Stores: []e2wtypes.Store{store}, GenPass: inst.GenPass, ProcessOp: o.ProcessOp,
 		})
 		if err != nil {
 			return nil, err
